@@ -35,3 +35,6 @@ pub fn hash_ctx() -> Ctx {
 }
 
 pub fn type_ids() -> Vec<(&'static str, u128)> { vtypes_gen::type_ids() }
+
+#[cfg(feature = "opt")]
+pub mod opt;
